@@ -1,6 +1,9 @@
 #!/usr/bin/env python3-vt
 """E2 / peg2smt driver:  python3-vt driver.py <C14|C20> [--tier quick|thorough] [--seed N] [--replay file]
 
+Test knobs (environment): VERIF_REPO (repo root, default /repo), VERIF_KNOWN_FINDINGS (alternative known_findings.json),
+PEG2SMT_N (override the length bound of every top rule), PEG2SMT_TIMEOUT (per-query seconds), PEG2SMT_WORKERS (default 4).
+
 exit 0 held | 1 VIOLATION (replay-confirmed difference between the real parser and the RFC grammar)
      | 2 INCONCLUSIVE (unknown rule kind, encoder/validation mismatch, solver timeout/error, solver disagreement)
 """
@@ -38,15 +41,18 @@ PROPS = {
     },
     'C20': {
         'includes': ['tao/pegtl/contrib/uri.hpp'],
-        'tops': [('URI', 'tao::pegtl::uri::URI', 'URI', 1.0, {'quick': 14, 'thorough': 20}),
+        'tops': [('URI', 'tao::pegtl::uri::URI', 'URI', 1.2, {'quick': 14, 'thorough': 20}),
                  ('URI_reference', 'tao::pegtl::uri::URI_reference', 'URI-reference', 3.0, {'quick': 14, 'thorough': 20}),
-                 ('absolute_URI', 'tao::pegtl::uri::absolute_URI', 'absolute-URI', 0.4, {'quick': 14, 'thorough': 20}),
+                 ('absolute_URI', 'tao::pegtl::uri::absolute_URI', 'absolute-URI', 1.1, {'quick': 14, 'thorough': 20}),
+                 # IPv4address derives nothing longer than 15 bytes, IPv6address nothing longer than 45: N = 16 / 46 covers
+                 # every string of the RFC language (plus all non-members up to that length)
                  ('IPv4address', 'tao::pegtl::uri::IPv4address', 'IPv4address', 0.0001, {'quick': 16, 'thorough': 16}),
-                 ('IPv6address', 'tao::pegtl::uri::IPv6address', 'IPv6address', 0.001, {'quick': 24, 'thorough': 46})],
+                 ('IPv6address', 'tao::pegtl::uri::IPv6address', 'IPv6address', 0.002, {'quick': 24, 'thorough': 46}),
+                 ('IP_literal', 'tao::pegtl::uri::IP_literal', 'IP-literal', 0.002, {'quick': 24, 'thorough': 48})],
         'abnf': 'rfc3986.abnf',
         'growth': 1.6,
         'timeout_s': {'quick': 200, 'thorough': 1500},
-        'both_max_n': {'quick': 12, 'thorough': 13},
+        'both_max_n': {'quick': 12, 'thorough': 12},
         'raise_allowed': True,
         'maximum_rule': True,
         'k_samples': {'quick': 3, 'thorough': 4},
@@ -277,7 +283,7 @@ class Run:
             for n in range(0, self.Ntop[l] + 1):
                 engines = ['z3', 'cvc5'] if n <= both else ['cvc5']
                 base = dict(top=l, n=n, rules=rules, root=self.tinfo[l]['root'], abnf_text=self.abnf_text, abnf_ext=self.abnf_ext,
-                            start=start, known_start=kstart, timeout_s=cfg['timeout_s'][self.tier], seed=self.seed,
+                            start=start, known_start=kstart, timeout_s=float(os.environ.get('PEG2SMT_TIMEOUT', cfg['timeout_s'][self.tier])), seed=self.seed,
                             k_samples=cfg['k_samples'][self.tier], engines=engines, work=self.work,
                             cost=weight * cfg['growth'] ** n)
                 ts.append(dict(base, mode='main'))
